@@ -59,8 +59,8 @@ Section P.
       rewrite IH by exact Hrs. f_equal. unfold jadd_data; cbn. rewrite <- app_assoc. reflexivity.
   Qed.
 
-  Lemma jclose_none st :
-    jclose None st = Ok {| plist := (plist st ++ [data st])%list; data := data st; counts := counts st; cut := cut st |}.
+  Lemma jclose_none first st :
+    jclose None first st = Ok {| plist := (plist st ++ [data st])%list; data := data st; counts := counts st; cut := cut st |}.
   Proof.
     unfold jclose. cbn [bind]. destruct (List.length (data st)) as [|k] eqn:E; cbn; reflexivity.
   Qed.
@@ -131,7 +131,7 @@ Section P.
     cbn [jscan]. unfold is_count_line in Hh0. rewrite Hh0.
     rewrite (jscan_events (jd_events d) 0 [jd_trailer d] Hev).
     cbn [jscan]. unfold is_count_line in Htc. rewrite Htc. cbn [jscan bind]. rewrite app_nil_r.
-    cbn [jnum_skip jnum_read bind].
+    cbn [jnum_skip jnum_read bind sel_first sel_counts].
     destruct (jcounts_from 0 (jd_events d)) eqn:Ec.
     { destruct (jd_events d); [congruence|discriminate]. }
     rewrite <- Ec. cbn [bind]. rewrite jread_all_lines.
